@@ -156,7 +156,7 @@ class Rig:
                 if r is not None and r.si_pid == p.pid and r.si_code in kinds:
                     stops.append((time.monotonic(), kinds[r.si_code], r.si_status))
                     continue
-                time.sleep(0.004)
+                time.sleep(0.002)
 
         th = threading.Thread(target=deliver, daemon=True)
         th.start()
